@@ -246,6 +246,11 @@ func (c *c05OpaqueConn) CloseWrite() error {
 	return nil
 }
 
+// c05NoCWConn is a connection that cannot half-close: only the net.Conn methods are
+// visible, so the relay's dir.dst.(WriteCloser) assertion fails (typical for proxied
+// outbound connections).
+type c05NoCWConn struct{ net.Conn }
+
 // ---------------------------------------------------------------------------
 // payloads
 // ---------------------------------------------------------------------------
@@ -441,6 +446,9 @@ type c05Scn struct {
 	// segment and FIN in one step.
 	EOFWithData [2]bool
 	FinAtomic   [2]bool
+	// in-memory runs: the relay's left / right connection does not implement CloseWrite.
+	// The other side's FIN then cannot be passed on; the grace period still bounds the flow.
+	NoCW [2]bool
 	// loopback runs: SO_SNDBUF/SO_RCVBUF forced small on all four sockets (0 = kernel
 	// default with autotuning), so that writes into the peer are partial and the copy
 	// paths see back-pressure (EAGAIN in the middle of a splice/writev round).
@@ -464,7 +472,7 @@ func (s *c05Scn) Summary() map[string]any {
 		"memLimit": s.MemLimit, "readChunk": s.ReadChunk, "sniffTimeout": s.SniffT.String(), "dnsTimeout": s.DnsT.String(),
 		"firstKind": s.FirstKind, "open": s.Open, "close": s.Close, "firstFlight": s.First,
 		"c2u": len(s.C2U), "u2c": len(s.U2C), "client": st(s.CSteps), "upstream": st(s.SSteps),
-		"wrapped": s.Wrapped, "probeTimeout": s.ProbeTO, "eofWithData": s.EOFWithData, "finAtomic": s.FinAtomic, "sockBuf": s.SockBuf,
+		"wrapped": s.Wrapped, "probeTimeout": s.ProbeTO, "eofWithData": s.EOFWithData, "finAtomic": s.FinAtomic, "sockBuf": s.SockBuf, "noCloseWrite": s.NoCW,
 	}
 }
 
@@ -574,6 +582,7 @@ func c05GenScn(t *rapid.T, o c05GenOpt, excludedCase func(id string)) *c05Scn {
 		s.MemLimit = rapid.SampledFrom([]int{0, 0, 1, 7, 4096, 65536}).Draw(t, "memLimit")
 		s.EOFWithData = [2]bool{rapid.Bool().Draw(t, "eofWithDataL"), rapid.Bool().Draw(t, "eofWithDataR")}
 		s.FinAtomic = [2]bool{rapid.Bool().Draw(t, "finAtomicC"), rapid.Bool().Draw(t, "finAtomicS")}
+		s.NoCW = [2]bool{rapid.IntRange(0, 3).Draw(t, "noCloseWriteL") == 0, rapid.IntRange(0, 3).Draw(t, "noCloseWriteR") == 0}
 	}
 	chunks := []int{1, 3, 512, 4096, 65536, 65536}
 	s.ReadChunk = [2]int{rapid.SampledFrom(chunks).Draw(t, "crd"), rapid.SampledFrom(chunks).Draw(t, "srd")}
@@ -1326,8 +1335,14 @@ func c05Execute(s *c05Scn, cn *c05Conns, limit time.Duration) *c05Result {
 	srv := &c05Peer{finAtomic: s.FinAtomic[1], name: "upstream", conn: cn.upstream, send: s.U2C, steps: s.SSteps, chunk: s.ReadChunk[1], wake: make(chan struct{})}
 	res := &c05Result{s: s, dae: d, cli: cli, srv: srv, conns: cn, t0: time.Now()}
 	var right netproxy.Conn = cn.right
-	if s.RightOpaque {
+	if s.NoCW[1] {
+		right = &c05NoCWConn{Conn: cn.right}
+	} else if s.RightOpaque {
 		right = &c05OpaqueConn{Conn: cn.right}
+	}
+	left := cn.left
+	if s.NoCW[0] {
+		left = &c05NoCWConn{Conn: cn.left}
 	}
 	daeDone := make(chan struct{})
 	go func() {
@@ -1340,9 +1355,9 @@ func c05Execute(s *c05Scn, cn *c05Conns, limit time.Duration) *c05Result {
 			}
 		}()
 		if s.HandleConn {
-			d.viaHandleConn(s, cn.left, right)
+			d.viaHandleConn(s, left, right)
 		} else {
-			d.composed(s, cn.left, right)
+			d.composed(s, left, right)
 		}
 	}()
 	dones := []chan struct{}{make(chan struct{}), make(chan struct{}), make(chan struct{}), make(chan struct{})}
@@ -1568,26 +1583,46 @@ func c05Judge(r *c05Result, o c05GenOpt, exact bool) c05Verdict {
 			return failf("handleConn returned without closing the upstream connection")
 		}
 	}
+	if s.NoCW[0] {
+		cls("left_without_CloseWrite")
+	}
+	if s.NoCW[1] {
+		cls("right_without_CloseWrite")
+	}
 	if exact {
-		// a FIN inside the model reaches the other side, as end of stream, at the instant
-		// that is possible; a side that is cut by the grace expiry sees its stream end then.
-		if r.cli.finDone && !lateC {
-			want := maxT(r.cli.finAt, d.startAt)
-			if !r.srv.eof || !r.srv.eofAt.Equal(want) {
-				return failf("upstream saw the client's end of stream at +%v (eof=%v err=%v), expected +%v", r.srv.eofAt.Sub(r.t0), r.srv.eof, r.srv.rerr, want.Sub(r.t0))
-			}
-		}
-		if r.srv.finDone && !lateS && !(s.Wrapped && o.KnownCW) {
-			want := maxT(r.srv.finAt, d.startAt)
-			if !r.cli.eof || !r.cli.eofAt.Equal(want) {
-				return failf("client saw the upstream's end of stream at +%v (eof=%v err=%v), expected +%v", r.cli.eofAt.Sub(r.t0), r.cli.eof, r.cli.rerr, want.Sub(r.t0))
-			}
-		}
 		endOf := func(p *c05Peer) time.Time {
 			if p.eof {
 				return p.eofAt
 			}
 			return p.rerrAt
+		}
+		wantEnd := maxT(maxT(r.cli.finAt, r.srv.finAt), d.startAt)
+		if lateC || lateS {
+			wantEnd = graceEnd
+		}
+		// a FIN inside the model reaches the other side, as end of stream, at the instant
+		// that is possible; a side that is cut by the grace expiry sees its stream end then.
+		// Where the relay's destination cannot half-close, the FIN cannot be passed on:
+		// that side's stream ends when the relay ends (grace expiry, or both FINs seen).
+		if r.cli.finDone && !lateC {
+			want := maxT(r.cli.finAt, d.startAt)
+			if s.NoCW[1] {
+				if !endOf(r.srv).Equal(wantEnd) {
+					return failf("right side cannot half-close: upstream's stream ended at +%v, expected the relay's end at +%v", endOf(r.srv).Sub(r.t0), wantEnd.Sub(r.t0))
+				}
+			} else if !r.srv.eof || !r.srv.eofAt.Equal(want) {
+				return failf("upstream saw the client's end of stream at +%v (eof=%v err=%v), expected +%v", r.srv.eofAt.Sub(r.t0), r.srv.eof, r.srv.rerr, want.Sub(r.t0))
+			}
+		}
+		if r.srv.finDone && !lateS && !(s.Wrapped && o.KnownCW) {
+			want := maxT(r.srv.finAt, d.startAt)
+			if s.NoCW[0] {
+				if !endOf(r.cli).Equal(wantEnd) {
+					return failf("left side cannot half-close: client's stream ended at +%v, expected the relay's end at +%v", endOf(r.cli).Sub(r.t0), wantEnd.Sub(r.t0))
+				}
+			} else if !r.cli.eof || !r.cli.eofAt.Equal(want) {
+				return failf("client saw the upstream's end of stream at +%v (eof=%v err=%v), expected +%v", r.cli.eofAt.Sub(r.t0), r.cli.eof, r.cli.rerr, want.Sub(r.t0))
+			}
 		}
 		if lateC && !endOf(r.srv).Equal(graceEnd) {
 			return failf("the client did not finish inside the grace period that ended at +%v, but the upstream's read side ended at +%v", graceEnd.Sub(r.t0), endOf(r.srv).Sub(r.t0))
